@@ -402,6 +402,7 @@ func runC07(c *an.Ctx) {
 		c.Check(okNA, "C07.e", "ranges-non-adjacent", "a header adjacent to the last pending range extends it; a new range is started only across a gap (ranges are never adjacent)", rangesAdd, nil, "", nil)
 		checkAppendRestartsEmptiedRange(c, "C07.e")
 		checkCacheMoveThenAppend(c, "C07.b")
+		checkHeadCacheRestoredOnFailedAppend(c, "C07.b")
 		// ranges stay strictly increasing: a header at or below the pending head is neither appended nor starts a range
 		// (a duplicate range [..K],[K] can never be stored and blocks the pending queue for good)
 		{
